@@ -131,3 +131,15 @@ Proof.
   induction l as [|x l IH]; cbn [map concat]; [reflexivity|].
   rewrite len_app, len_le16, len_cons, IH. lia.
 Qed.
+
+(* ---- specification-level tag queries ---- *)
+(* a tag [n; v; ...] with n = letter and v = value (Tags::matches) *)
+Definition tag_is (letter value : bytes) (t : list bytes) : bool :=
+  match t with n :: v :: _ => beq n letter && beq v value | _ => false end.
+(* value of the first tag named [key] (Tags::get_value): its second string, if any *)
+Fixpoint spec_get_value (key : bytes) (l : atags) : option bytes :=
+  match l with
+  | [] => None
+  | (n :: rest) :: l' => if beq n key then nth_error rest 0 else spec_get_value key l'
+  | [] :: l' => spec_get_value key l'
+  end.
